@@ -351,6 +351,7 @@ def c16_cases(ids: IdGen, tier: str):
         ("u32", [5, 6, 7, 8], "none"),
         ("i64", [-3, -2, -1, 0, 1], "first"),
         ("u128", [1, 2, 3, 9], "none"),
+        ("i16", [-40, -39, -30, -20, -19, -18, -7, -1, 0, 1, 5, 9, 11, 12, 20, 30, 31, 40, 50, 60, 70, 71], "none"),
     ]
     if tier != "quick":
         base += [
